@@ -254,6 +254,21 @@ pub fn tiny_with(fat: FatType, nfree: usize, root_entries: u16) -> Cfg {
     cfg_from(&spec.name, img, cands)
 }
 
+/// like `tiny_with`, but FAT12 volumes also get ballast: ten clusters of which `nfree` are free (for nfree < 7)
+pub fn tiny_low(fat: FatType, nfree: usize, root_entries: u16) -> Cfg {
+    let mut spec = tiny_spec(fat);
+    if fat == FatType::Fat12 {
+        spec.clusters = Some(10);
+    }
+    spec.free = Some(nfree);
+    if fat != FatType::Fat32 {
+        spec.root_entries = root_entries;
+    }
+    spec.name = format!("{}-low{}-r{}", spec.name, nfree, spec.root_entries);
+    let (img, cands) = build(&spec).expect("tiny low volume");
+    cfg_from(&spec.name, img, cands)
+}
+
 fn tiny_spec(fat: FatType) -> VolSpec {
     match fat {
         FatType::Fat12 => VolSpec {
